@@ -36,6 +36,9 @@ var c05Keys = []string{"k1", "k2", "k3"}
 
 func genC05(r *Rng, tier string, idx int) *Plan {
 	p := &Plan{Knobs: map[string]int64{}, SKnobs: map[string]string{}}
+	if idx%10 == 3 {
+		return genConnConc(r, tier, p)
+	}
 	if idx%5 == 4 {
 		switch (idx / 5) % 3 {
 		case 1:
